@@ -107,19 +107,16 @@ theorem releaseEntry_tsub {s s' : State} {k : Nat} {r : WaitResult} {K : List Na
     simp only [hk] at h
     exact (TSub.of_eq (s := s) (s' := { s with sync := upd s.sync k none }) rfl).trans (release_tsub h)
 
-theorem releaseSelf_tsub {s s' : State} {k : Nat} {K : List Nat}
-    (h : releaseSelf s k = some s') : TSub s s' K := by
-  unfold releaseSelf at h
+theorem releaseSelf_tsub {s s' : State} {t k : Nat} {K : List Nat}
+    (h : releaseSelf s t k = some s') : TSub s s' K := by
   cases hk : s.sync k with
-  | none => simp [hk] at h
+  | none => simp [releaseSelf, hk] at h
   | some st =>
-    simp only [hk] at h
     cases hct : st.claimedTwice with
-    | true =>
-      simp only [hct, if_true] at h
-      exact TSub.of_eq (handback_frame h).1
+    | true => exact TSub.of_eq (handback_frame hk hct h).1
     | false =>
-      simp only [hct, Bool.false_eq_true, if_false] at h
+      unfold releaseSelf at h
+      simp only [hk, hct, Bool.false_eq_true, if_false] at h
       exact (TSub.of_eq (s := s) (s' := { s with sync := upd s.sync k none }) rfl).trans (release_tsub h)
 
 theorem transferEntry_tsub {s s4 : State} {q c n nt : Nat} {ch : Bool}
